@@ -1,4 +1,5 @@
 import BppProofs.Lemmas.Dag
+import BppProofs.Lemmas.TreeSwitch
 /-!
 # C15 — DAG container (src/Bpp/Graph/DAGraphImpl.h on GlobalGraph, model `BppModel/Dag.lean`)
 
@@ -14,7 +15,11 @@ Proved here (helper lemmas in `Lemmas/Dag.lean`):
   core Lean only);
 * the driver's reference decision `isAcyclicRef` (transitive closure of the edge table,
   `BppModel/TreeRef.lean`) decides the same `Acyclic`, so that the check `valid_iff` compares
-  `isValid()` with a proved-correct oracle.
+  `isValid()` with a proved-correct oracle;
+* the histories include **re-rooting** (`rootAt`: `setRoot`, then `propagateDirection_` on a valid rooted
+  DAG, `GlobalGraph::orientate()` otherwise), so all of the above holds after it as well, whether it
+  succeeded or raised half way; and `rootAt` keeps the **shape**: the nodes and the undirected edge
+  set with its edge ids (`dag_rootAt_shape`).
 -/
 namespace Bpp.C15
 open Bpp Bpp.Graph Bpp.Graph.D
@@ -28,8 +33,15 @@ def DagCacheSound (d : D) : Prop :=
   (d.valid = true → D.isDA d.g = .ok true) ∧ (d.rooted = true → D.nbFatherless d.g = 1)
 
 /-- **dag_cache_sound**: after any history of topology edits (node creations, links, unlinks,
-deletions, add / remove son, add / remove father, remove all sons / fathers, set root) and queries
-(`isValid`, `isRooted`, `getBelow*`), each call succeeding or raising, both caches are sound -/
+deletions, add / remove son, add / remove father, remove all sons / fathers, set root, and
+re-rooting: `rootAt` with its `setRoot`, `isRooted() && isValid()`, then `propagateDirection_` —
+one `switchNodes` per relation above the new root — or `GlobalGraph::orientate()`) and queries
+(`isValid`, `isRooted`, `getBelow*`), each call succeeding or raising (for `rootAt` and
+`orientate`: possibly after part of the relations have been turned round), both caches are sound.
+(`orientate()` resets the flags only when one of its `switchNodes` calls succeeded; when none did the
+tables are as before and the flags are kept: still sound.)
+A `rootAt` whose `propagateDirection_` would not return (outcome `fuel` of the model) is not a step
+of a history: the state is left as it was. -/
 theorem dag_cache_sound (ops : List DOp) : DagCacheSound (D.empty.run ops) :=
   (D.inv_run ops _ D.inv_empty).2
 
@@ -65,10 +77,92 @@ theorem dagCacheSound_decidable (d : D) : DagCacheSound d ↔
   unfold DagCacheSound
   cases d.valid <;> cases d.rooted <;> simp
 
-/-- every reachable graph of the container is consistent (the invariant of C14) and directed -/
+/-- every reachable graph of the container (re-rooted or not) is consistent (the invariant of C14) and
+directed -/
 theorem dag_reachable_consistent (ops : List DOp) :
     Consistent (D.empty.run ops).g ∧ (D.empty.run ops).g.directed = true :=
   (D.inv_run ops _ D.inv_empty).1
+
+/-- no notification is left pending in a reachable container (every mutator of the container drains
+the queue of the graph) -/
+theorem dag_reachable_quiet (ops : List DOp) : (D.empty.run ops).g.pending = [] :=
+  D.pending_run ops _ rfl
+
+/-! ## re-rooting keeps the shape of the graph -/
+
+/-- **dag_rootAt_shape**: whatever `rootAt` does to a consistent directed DAG container (whatever its
+cached flags say) — turning round the relations above the new root, or `orientate()`, succeeding or
+raising half way — the nodes and the undirected edge set with its edge ids stay; when it succeeds
+the node is the root; for an absent node it raises and the graph is unchanged -/
+theorem dag_rootAt_shape (d : D) (hc : Consistent d.g) (hd : d.g.directed = true) (hp : d.g.pending = []) (n : Nat)
+    (r : GOut Unit × D) (h : d.rootAt n = .ok r) :
+    AL.keys r.2.g.nodes = AL.keys d.g.nodes ∧ uedges r.2.g = uedges d.g ∧
+    (∀ u g', r.1 = .ok u g' → r.2.g.root = n) ∧ (d.g.hasNode n = false → r.2.g = d.g ∧ ∃ g', r.1 = .exc g') := by
+  obtain ⟨hs, hroot, habs⟩ := D.rootAt_shape d ⟨hc, hd⟩ hp n r h
+  refine ⟨hs.keys, hs.uedges, ?_, habs⟩
+  intro u g' hr
+  cases hn : d.g.hasNode n
+  · obtain ⟨_, g'', hr'⟩ := habs hn
+    rw [hr] at hr'; cases hr'
+  · exact hroot hn
+
+/-- the same with `SameShape` (`Lemmas/TreeSwitch.lean`: same nodes, same undirected edges with the same
+ids, nothing pending), as for the tree container; and the root is the node asked for as soon as the
+node exists, even when `rootAt` raised later on -/
+theorem dag_rootAt_sameShape (d : D) (hc : Consistent d.g) (hd : d.g.directed = true) (hp : d.g.pending = []) (n : Nat)
+    (r : GOut Unit × D) (h : d.rootAt n = .ok r) :
+    SameShape d.g r.2.g ∧ (d.g.hasNode n = true → r.2.g.root = n) :=
+  ⟨(D.rootAt_shape d ⟨hc, hd⟩ hp n r h).1, (D.rootAt_shape d ⟨hc, hd⟩ hp n r h).2.1⟩
+
+/-- **dag_rootAt_shape_history**: the same on every reachable container: the hypotheses of
+`dag_rootAt_shape` hold after any history -/
+theorem dag_rootAt_shape_history (ops : List DOp) (n : Nat) (r : GOut Unit × D)
+    (h : (D.empty.run ops).rootAt n = .ok r) :
+    AL.keys r.2.g.nodes = AL.keys (D.empty.run ops).g.nodes ∧ uedges r.2.g = uedges (D.empty.run ops).g ∧
+    (∀ u g', r.1 = .ok u g' → r.2.g.root = n) ∧
+    ((D.empty.run ops).g.hasNode n = false → r.2.g = (D.empty.run ops).g ∧ ∃ g', r.1 = .exc g') :=
+  dag_rootAt_shape _ (dag_reachable_consistent ops).1 (dag_reachable_consistent ops).2 (dag_reachable_quiet ops) n r h
+
+/-- non-vacuity: the diamond 0 -> 1 -> 3, 0 -> 2 -> 3 (valid and rooted at 0) re-rooted at 3:
+`propagateDirection_` succeeds, the result is acyclic, rooted at 3, and 3 is its only father-less node -/
+example :
+    let d := D.empty.run [.createNode, .createNode, .createNode, .createNode,
+      .addSon 0 1, .addSon 0 2, .addSon 1 3, .addSon 2 3]
+    (match d.rootAt 3 with
+      | .ok (.ok _ _, d') => D.isDA d'.g == .ok true && d'.g.root == 3 && D.nbFatherless d'.g == 1
+          && (uedges d'.g == uedges d.g)
+      | _ => false) = true := by decide
+
+/-- the same as a step of a history: afterwards `isValid()` and `isRooted()` answer true -/
+example :
+    let d := D.empty.run [.createNode, .createNode, .createNode, .createNode,
+      .addSon 0 1, .addSon 0 2, .addSon 1 3, .addSon 2 3, .rootAt 3]
+    d.g.root = 3 ∧ d.isValid.1 = .ok true ∧ d.isRooted.1 = true ∧ D.nbFatherless d.g = 1 := by decide
+
+/-- a 3-cycle 0 -> 1 -> 2 -> 0 (not valid) re-rooted at 0: `orientate()` succeeds and makes it acyclic,
+with 0 its only father-less node -/
+example :
+    let d := D.empty.run [.createNode, .createNode, .createNode, .addSon 0 1, .addSon 1 2, .addSon 2 0]
+    D.isDA d.g = .ok false ∧
+    (match d.rootAt 0 with
+      | .ok (.ok _ _, d') => D.isDA d'.g == .ok true && d'.g.root == 0 && D.nbFatherless d'.g == 1
+          && (uedges d'.g == uedges d.g)
+      | _ => false) = true := by decide
+
+/-- two isolated nodes: `rootAt 1` succeeds (through `orientate()`), and leaves two father-less nodes:
+the rootedness flag is not set (the unrepaired code set it), and `isRooted()` answers false -/
+example :
+    let d := D.empty.run [.createNode, .createNode]
+    (match d.rootAt 1 with
+      | .ok (.ok _ _, d') => d'.g.root == 1 && D.nbFatherless d'.g == 2 && !d'.rooted && !d'.isRooted.1
+      | _ => false) = true := by decide
+
+/-- an absent node: `rootAt` raises and nothing changed -/
+example :
+    let d := D.empty.run [.createNode, .createNode, .addSon 0 1]
+    (match d.rootAt 7 with
+      | .ok (.exc _, d') => d' == d
+      | _ => false) = true := by decide
 
 /-! ## `isDA` is total, and the fuel of the model is enough -/
 
